@@ -260,7 +260,8 @@ def diff_mpool(ctx, rng):
 def diff_dict(ctx, rng):
     exe = ctx.link("gen_dict", ["gen_dict.c"], exclude=["ds/dictionary/dictionary_shavit.c"], cflags=["-DGEN_MAIN"])
     M = 2 ** 64
-    xs = list(range(0, 256)) + [2 ** k for k in range(64)] + [2 ** k - 1 for k in range(1, 65)] + [rng.next() for _ in range(400)]
+    xs = list(range(0, 256)) + [2 ** k for k in range(64)] + [2 ** k - 1 for k in range(1, 65)] + [rng.next() for _ in range(300)] + \
+         [2 ** a + 2 ** rng.below(a) for a in range(1, 64) for _ in range(4)] + [(2 ** a + 2 ** rng.below(a) + 2 ** rng.below(a)) for a in range(2, 64)]
     bs = [(rng.next(), rng.choice([1, 2, 4, 8, 16, 1024, 3, 2 ** rng.range(0, 20)])) for _ in range(300)]
     lines = ["R %d" % x for x in xs] + ["K %d" % (x % 2 ** 63) for x in xs] + ["D %d" % x for x in xs] + ["P %d" % x for x in xs] + \
             ["B %d %d" % b for b in bs]
